@@ -439,6 +439,121 @@ def shape_N(rng):
     return mk_case("iso", order + [y], A, assign, extra + ["cls=N"]), "N"
 
 
+# ------------------------------------------------------------------ shape V: the eliminant vanishes identically
+NUMVAL = {"r:-2,0,1:1": 2 ** 0.5, "r:-2,0,1:0": -2 ** 0.5, "r:-3,0,1:1": 3 ** 0.5, "r:-3,0,1:0": -3 ** 0.5,
+          "a:6,0,-5,0,1:5/2:3/1": 2 ** 0.5, "a:6,0,-5,0,1:13/3:15/3": 3 ** 0.5,
+          "r:-2,0,0,1:0": 2 ** (1 / 3), "r:-4,0,0,1:0": 4 ** (1 / 3), "z:2": 2.0, "z:-1": -1.0, "q:1/3": 1 / 3, "z:3": 3.0}
+
+
+def pnum(p, env):
+    """floating point value of a polynomial (only used to CHOOSE signs / square roots; the model re-checks exactly)"""
+    tot = 0.0
+    for m, c in p.items():
+        t = float(c)
+        for v, e in m:
+            t *= env[v] ** e
+        tot += t
+    return tot
+
+
+def shape_V(rng):
+    """Two (or three) assigned variables with conjugate-related algebraic values and a polynomial all of whose
+    coefficients lie in the ideal of ANOTHER conjugate combination, without a common factor:
+       x0 = x1 = sqrt d      :  x0 + x1,  x0 x1 + d              (vanish at (sqrt d, -sqrt d))
+       x0 = sqrt d = -x1     :  x0 - x1,  x0 x1 - d              (vanish at (sqrt d, sqrt d))
+       x0 = x1 = cbrt 2      :  g = x0^2 + x0 x1 + x1^2 and g x0, g x0 x1 reduced with x^3 = 2   (vanish at x1 = w x0)
+       x0 = cbrt 2, x1 = cbrt 4 :  g = x1^2 + x0^2 x1 + 2 x0 and g x0, g x1 reduced            (vanish at x1 = w x0^2)
+    The iterated resultant with the defining polynomials is then identically zero although the specialisation is a
+    proper polynomial: coefficient_roots_isolate must take its "vanished" regime (fresh variable for the leading
+    coefficient, recursion).  Shapes with 0, 1 and 2 real roots, a double root, and the truly vanishing assignment.
+    (Products of two such factors are avoided: the library needs minutes for the sign test of their candidates.)"""
+    idx = rng.sample(range(6), 4)
+    a, b, w, y = idx
+    X, Z, W, Y = pvar(a), pvar(b), pvar(w), pvar(y)
+    fam = rng.choice(["same", "same", "opp", "cb_same", "cb_sq"])
+    # (two real roots +-r only in the square-root families: with cube roots the library needs 5 s .. minutes)
+    kind = rng.choice(["one", "one", "one", "none", "two", "double", "two-lin"] if fam in ("same", "opp") else ["one", "one", "none"])
+    if kind == "two-lin" and rng.random() < 0.75:      # 5 - 8 s per case in the library: keep them rare
+        kind = "one"
+    if fam in ("same", "opp"):
+        d = rng.choice([2, 2, 3])
+        pos, neg = "r:-%d,0,1:1" % d, "r:-%d,0,1:0" % d
+        alt = "a:6,0,-5,0,1:5/2:3/1" if d == 2 else "a:6,0,-5,0,1:13/3:15/3"      # the same number, reducible polynomial
+        root4 = "r:-%d,0,0,0,1:1" % d
+        if fam == "same":
+            if rng.random() < 0.3:
+                va, vb = neg, neg
+            else:
+                va, vb = pos, (alt if (kind == "one" and rng.random() < 0.3) else pos)
+            gs = [padd(X, Z), padd(pmul(X, Z), pconst(d))]
+        else:
+            va, vb = (pos, neg) if rng.random() < 0.5 else (neg, pos)
+            gs = [psub(X, Z), psub(pmul(X, Z), pconst(d))]
+        if kind == "one" and rng.random() < 0.15:
+            # the combination at which everything DOES vanish: the specialisation is identically zero
+            va, vb = (pos, neg) if fam == "same" else (pos, pos)
+    elif fam == "cb_same":
+        va = vb = "r:-2,0,0,1:0"
+        root4 = "r:-2,0,0,0,0,0,1:1"                                             # 2^(1/6) = sqrt(g x0 / g)
+        g = padd(pmul(X, X), padd(pmul(X, Z), pmul(Z, Z)))
+        gs = [g, padd(pconst(2), padd(pmul(pmul(X, X), Z), pmul(X, pmul(Z, Z)))),
+              padd(pscale(2, Z), padd(pmul(pmul(X, X), pmul(Z, Z)), pscale(2, X)))]
+    else:
+        va, vb = "r:-2,0,0,1:0", "r:-4,0,0,1:0"
+        root4 = "r:-2,0,0,0,0,0,1:1"
+        gs = [padd(pmul(Z, Z), padd(pmul(pmul(X, X), Z), pscale(2, X))),
+              padd(pmul(X, pmul(Z, Z)), padd(pscale(2, Z), pscale(2, pmul(X, X)))),
+              padd(pconst(4), padd(pmul(pmul(X, X), pmul(Z, Z)), pscale(2, pmul(X, Z))))]
+    assign = [(a, va), (b, vb)]
+    env = {a: NUMVAL[va], b: NUMVAL[vb]}
+    lows = [a, b]
+    third = pconst(1)
+    if kind == "one" and rng.random() < 0.35:
+        lows.append(w)
+        t = rng.choice(["z:2", "z:-1", "q:1/3", "z:3"] + (["r:-3,0,1:1"] if fam in ("same", "opp") and rng.random() < 0.4 else []))
+        assign.append((w, t))
+        third = W
+    extra = ["lc=1"]
+    if kind in ("none", "two"):
+        ga, gb = gs[0], gs[1]
+        # q = ga y^2 - s gb,  y^2 = s gb/ga: the sign s decides between no root and the two roots +-(|gb/ga|)^(1/2)
+        ratio = pnum(gb, env) / pnum(ga, env) if abs(pnum(ga, env)) > 1e-9 else 1.0
+        s_ = (1 if ratio > 0 else -1) * (1 if kind == "two" else -1)
+        k = 1 if kind == "two" else rng.choice([1, 2, 3])
+        q = psub(pmul(ga, pmul(Y, Y)), pscale(s_ * k, gb))
+        extra.append("quad=" + ptext(q))
+        if kind == "two":
+            extra.append("sqrt=" + root4)
+        A = q
+    else:
+        def lin_factor():
+            ga, gb = rng.sample(gs, 2) if rng.random() < 0.8 else (gs[0], gs[0])
+            m = rng.choice([1, 1, 2, -1])
+            k = rng.choice([1, -1, 2, -3])
+            B1 = pscale(k, gb)
+            if third != pconst(1) and len(pmul(gb, third)) <= 4:
+                B1 = pmul(B1, third)
+            return pscale(m, ga), B1
+        A1, B1 = lin_factor()
+        extra.append("lin=%s;%s" % (ptext(A1), ptext(B1)))
+        A = psub(pmul(A1, Y), B1)
+        if kind == "double":
+            # a second, ordinary factor with the same root: (x0 + x1) y - (x0 x1 + d) has the root x0 (fam same)
+            A1, B1 = gs[0], gs[1]
+            extra[-1] = "lin=%s;%s" % (ptext(A1), ptext(B1))
+            A = psub(pmul(A1, Y), B1)
+            c2 = X if fam == "same" else pscale(-1, X)
+            c2 = rng.choice([c2, padd(c2, pconst(0))])
+            extra.append("lin=1;%s" % ptext(c2))
+            A = pmul(A, psub(Y, c2))
+        elif kind == "two-lin":
+            c2 = pconst(rng.choice([0, 1, -2]))
+            extra.append("lin=1;%s" % ptext(c2))
+            A = pmul(A, psub(Y, c2))
+    rng.shuffle(lows)
+    return mk_case("iso", lows + [y], A, assign, extra + ["cls=V"]), "V"
+
+
 def small_enough_D(case):
     main = case.split(" | ")[0].split()
     terms = main[2].split("+")
@@ -514,6 +629,9 @@ def gen_cases(rng, n, op="iso", light=False):
             elif k < 0.20 and not light:
                 c, _ = shape_N(rng)
                 ok = True
+            elif k < 0.28 and not light:
+                c, _ = shape_V(rng)
+                ok = len(c.split()[2].split("+")) <= 40
             else:
                 c, _ = (shape_S if rng.random() < 0.55 else shape_E)(rng)
                 ok = small_enough(c) and not (light and heavy_for_sweep(c))
@@ -545,6 +663,8 @@ def tag(case):
         kind = "D"
     if " cls=N" in case:
         kind = "N"
+    if " cls=V" in case:
+        kind = "V"
     return "%s-%s-alg%d" % (main[0], kind, nalg)
 
 
